@@ -103,6 +103,15 @@ Definition positions_at (v : validator) (c : content) (addr : N) : nat :=
 Definition failed_reqs (reqs : list sigreq) (v : validator) (c : content) : nat :=
   count (fun q => negb (q_ok q) && (q_acct q =? v_acct v) && content_eqb (q_content q) c) reqs.
 
+(* the k-th signing request of an account fails only if the signer made it fail ([v_sign], an input
+   of the round; missing = the signer signs): a request that fails for any other reason -- abandoned
+   because something else failed -- is nobody's excuse *)
+Fixpoint outcomes_ok (signs oks : list bool) : bool :=
+  match oks with
+  | [] => true
+  | o :: oks' => Bool.eqb o (hd true signs) && outcomes_ok (tl signs) oks'
+  end.
+
 Definition round_active (r : round_in) : bool :=
   if r_api r then r_cfg r
   else negb (r_acct_err r) && r_cfg r && match r_vals r with [] => false | _ => true end.
@@ -128,6 +137,7 @@ Definition round_ok (lastsig : list (N * (content * N))) (r : round_in)
          && existsb (fun v => (q_acct q =? v_acct v)
                               && existsb (fun rc => content_eqb (q_content q) (spec_content v rc)) (spec_relays v)) vals)
        reqs
+    && forallb (fun v => outcomes_ok (v_sign v) (map q_ok (filter (fun q => q_acct q =? v_acct v) reqs))) vals
     (* P2: everything a relay is sent is a validator's registration for that relay, well signed,
        fresh or a legitimate reuse; no relay is sent more than its share; unreachable relays see nothing *)
     && forallb (fun e =>
